@@ -256,6 +256,30 @@ def language_obligations():
     return res
 
 
+def h_collect_after_change(how):
+    """a field changed after construction (attribute assignment, update(), a second add()) is the value collect_config/save_config write"""
+    def h(I):
+        import andes.system as SY
+        from andes.core.common import Config
+        cfg = Config('TDS')
+        cfg.add(tf=20.0, tstep=0.1)
+        cfg.as_dict()                                   # the cache is filled during set-up (documentation, reports)
+        val = I.real('new_value')
+        if how == 'attribute':
+            cfg.tf = val
+        elif how == 'update':
+            cfg.update(tf=val)
+        else:
+            cfg.add(tf=val)
+        collect = pysym.rebind(SY.System.collect_config, configparser=NS(ConfigParser=dict))
+        fake = NS(config=Config('System'), routines={'TDS': NS(config=cfg)}, models={})
+        fake.config.add(freq=60)
+        out = collect(fake)
+        return [('the value in effect is the value used', EQ(cfg.tf, val, tol=0.0)),
+                ('the collected (saved) configuration holds the value in effect', 'tf' in out.get('TDS', {}) and EQ(out['TDS']['tf'], val, tol=0.0))]
+    return h
+
+
 def job(spec):
     import logging
     logging.getLogger('andes').setLevel(60)
@@ -266,6 +290,8 @@ def job(spec):
         return H.run(f'config precedence [option section in file={arg[0]}, two options={arg[1]}]', h_precedence(*arg), region=lambda v, c: c)
     if kind == 'two':
         return H.run('two systems from one rc file', h_two_systems, region=lambda v, c: c)
+    if kind == 'collect':
+        return H.run(f'collect_config after a change by {arg}', h_collect_after_change(arg), region=lambda v, c: c)
     if kind == 'alt':
         return job_alt(arg)
     if kind == 'lang':
@@ -290,7 +316,7 @@ def main():
               'float(repr(x)) == x is trusted (Python)', 'language model of int()/float() restricted to ASCII')
     ck.out('reading/writing the rc file itself (file I/O)', 'values of ~400 fields are covered structurally, not one by one')
     jobs = [('ch', j) for j in crosshair_jobs(to)]
-    jobs += [('prec', (a, b)) for a in (True, False) for b in (True, False)] + [('two', 0)]
+    jobs += [('prec', (a, b)) for a in (True, False) for b in (True, False)] + [('two', 0)] + [('collect', h) for h in ('attribute', 'update')]
     alts = []
     for owner, cfg in all_configs():
         for key, alt in cfg._alt.items():
